@@ -94,7 +94,9 @@ theorem cstr_append_zero (a b : Bytes) (h : ∀ c ∈ a, c ≠ 0) : cstr (a ++ 0
     have hx : x ≠ 0 := h x (by simp)
     have := ih (fun c hc => h c (by simp [hc]))
     unfold cstr at *
-    simp [List.takeWhile_cons, hx, this]
+    rw [List.cons_append, List.takeWhile_cons]
+    simp only [ne_eq, hx, not_false_eq_true, decide_true, if_true]
+    rw [this]
 
 /-! ### StripANSIMoveCmd: the loop computes the automaton -/
 
@@ -498,6 +500,16 @@ theorem recordImage_date (name : Bytes) (mtime : Nat) (owner date title : Bytes)
   rw [← List.append_assoc (copyInto _ name), ← List.append_assoc _ (List.replicate _ 0), ← List.append_assoc _ (copyInto _ owner),
     ← List.append_assoc _ (copyInto _ date)]
   exact field_mid _ _ _ _ _ (by simp [le32_length]; decide) (by simp)
+
+theorem recordImage_multi (name : Bytes) (mtime : Nat) (owner date title : Bytes) (multi fm : Nat) :
+    C05.field (recordImage name mtime owner date title multi fm) Gen.RecFile.offMulti Gen.RecFile.lenMulti
+      = le32 multi := by
+  unfold recordImage
+  simp only [List.append_assoc]
+  rw [← List.append_assoc (copyInto _ name), ← List.append_assoc _ (List.replicate _ 0), ← List.append_assoc _ (copyInto _ owner),
+    ← List.append_assoc _ (copyInto _ date), ← List.append_assoc _ (copyInto _ title), ← List.append_assoc _ (List.replicate _ 0),
+    ← List.append_assoc _ (le32 multi)]
+  exact field_mid _ _ _ _ _ (by simp [le32_length]; decide) (le32_length _)
 
 theorem postRecord_length (q : Req) (e : Env) (t : Bytes) (m : Nat) : (postRecord q e t m).length = dirSz := by
   unfold postRecord; split <;> exact recordImage_length ..
